@@ -445,6 +445,8 @@ def evaluate(case, native):
             dep.append(max(a, tws) + d)
         total_dist = sum(dist[i][i + 1] for i in range(n - 1))
         driving = sum(dur[i][i + 1] for i in range(n - 1))
+        for r in ref:
+            r['kind'] = {'dpickup': 'dyn+', 'ddelivery': 'dyn-'}.get(r['kind'], r['kind'])
         serving = sum(r['dur'] for r in ref if r['kind'] != 'break')
         breaks = sum(r['dur'] for r in ref if r['kind'] == 'break')
         waiting = sum(waits)
@@ -462,17 +464,27 @@ def evaluate(case, native):
         stops = tour['stops']
         if len(stops) != n:
             return True, f'{len(stops)} stops written for {n} pairwise different locations'
-        cur = [sum(r['amounts'][d] for r in ref if r['kind'] == 'delivery') for d in range(dims)]
+        cuts = [i for i, r in enumerate(ref) if r['kind'] == 'reload']
+        segs = list(zip([0] + cuts, cuts + [len(ref)]))
+        seg_of = lambda i: next(sg for sg in segs if sg[0] <= i < sg[1])
+        cur = [sum(r['amounts'][d] for r in ref[segs[0][0]:segs[0][1]] if r['kind'] == 'delivery') for d in range(dims)]
         cum = 0
         for i, stop in enumerate(stops):
             if i > 0:
                 cum += dist[i - 1][i]
                 if i <= len(ref):
                     r = ref[i - 1]
+                    if r['kind'] == 'reload':
+                        prev_seg = seg_of(i - 2) if i >= 2 else (0, 0)
+                        next_seg = seg_of(i - 1)
+                        for d in range(dims):
+                            cur[d] += (sum(x['amounts'][d] for x in ref[next_seg[0]:next_seg[1]] if x['kind'] == 'delivery')
+                                       - sum(x['amounts'][d] for x in ref[prev_seg[0]:prev_seg[1]] if x['kind'] == 'pickup'))
                     for d in range(dims):
-                        cur[d] += (r['amounts'][d] if r['kind'] == 'pickup' else 0) - (r['amounts'][d] if r['kind'] == 'delivery' else 0)
+                        cur[d] += (r['amounts'][d] if r['kind'] in ('pickup', 'dyn+') else 0) - (r['amounts'][d] if r['kind'] in ('delivery', 'dyn-') else 0)
             want_load = [0] * dims if i == n - 1 else cur
-            if list(stop['load'])[:dims] != want_load and not (not any(want_load) and not any(stop['load'])):
+            got_load = (list(stop['load']) + [0] * dims)[:dims]      # a load without dimensions is written as [0]
+            if got_load != want_load:
                 return True, f'stop {i}: written load {stop["load"]}, recomputed {want_load}'
             if stop['distance'] != cum:
                 return True, f'stop {i}: written cumulative distance {stop["distance"]}, recomputed {cum}'
